@@ -203,6 +203,20 @@ CLAIMED = {
         "against an independent reading of the file."),
   technique="Lean 4 proof (location selectors + span well-formedness, excerpt arithmetic) + insertion-shift correspondence",
   design="DESIGN.md section 7 C10"),
+ "C15": dict(
+  text=("Lean theorems (lean/Props/C15.lean) relating the hand-written models of B113, B324, B501-B505, B507-B509 (lean/Bandit/Plugins/Crypto.lean: evaluation order and every Python exception "
+        "included) to decision tables written from the property text (lean/Bandit/Spec/Crypto.lean), for ARBITRARY in-module tables, environments, call nodes and settings: one *_table theorem per "
+        "check plus *_iff forms (b501, b504, b507, b508, b509), *_secure_variant_silent per check, b505_keyword_size / positional_size / ec_curve (a literal size is graded against any integer "
+        "thresholds), b505_grading_antitone (any thresholds) and b505_antitone_partial (call level, 0 < k1 <= k2) with NEG_keysize_zero (0 falls through the or-chain: observation), "
+        "b505_classify_total (no raise under well-formed thresholds), b113_documented_partial + NEG_timeout_opaque (timeout=f() is graded as missing: observation), b509_table (full; the "
+        "keyword-keys defect of the pinned commit was repaired by /repo fix 60708c5, NEG_b509_positional_only documents it), REG_* no-crash regressions for the repaired crashes (/repo fixes 6e22cbb, "
+        "94606d1); instance theorems by decide +kernel over the tables/defaults regenerated from /repo on every run (harness/translate_c15.py extracts WEAK_HASHES, WEAK_CRYPT_HASHES, HTTP_VERBS/HTTPX_ATTRS, "
+        "func_key_type, arg_position, curve_key_sizes from the plugin source ASTs): thresholds coherent and >= published, protocol list and name tables >= published, key tables well-formed. "
+        "Correspondence on every run: ~4300 (quick) / ~21000 (thorough) programs — every keyed function x import spellings x positional/keyword placement x sizes at and across the thresholds x every "
+        "curve x non-literal and wrongly-typed values x custom threshold / protocol configurations and malformed settings — real bandit vs the compiled Lean model as (id, severity, confidence, line, "
+        "range, col) and crashes, plus a Python spec oracle written from the property text."),
+  technique="Lean 4 proof (case analysis on Except-monad models, omega, decide +kernel over generated tables) + differential correspondence + spec oracle",
+  design="DESIGN.md section 7 C15"),
 }
 
 REASON_PENDING = "check not built yet (work in progress; DESIGN.md section 11 gives the build order)"
